@@ -111,6 +111,7 @@ package snowflake
 //@ guarded MonoNode.time by MonoNode.mu
 //@ guarded MonoNode.step by MonoNode.mu
 //@ monitor MonoNode.mu
+//@   havoc lastSince
 //@   invariant layoutOK() ==> 0 <= self.step && self.step <= 4095 && 0 <= self.time && self.time <= lastSince / 1000000
 //
 //@ func MonoNode.Generate
